@@ -68,10 +68,14 @@ struct InputIt {
 // ---------------------------------------------------------------------------------------------
 enum Flavour { kVec = 0, kSV = 1, kFCV = 2 };
 
+template <class S>
+inline std::string numstr(S x) {
+  return std::is_signed<S>::value ? std::to_string(static_cast<long long>(x)) : std::to_string(static_cast<unsigned long long>(x));
+}
 template <class V>
 struct Words {
-  static long capa(const V &v) { return static_cast<long>(v._capa); }
-  static long size(const V &v) { return static_cast<long>(v._size); }
+  static std::string capa(const V &v) { return numstr(v._capa); }
+  static std::string size(const V &v) { return numstr(v._size); }
 };
 
 template <class Cfg>
